@@ -90,6 +90,22 @@ class World:
         effect.__name__ = name
         return effect
 
+    def _effect(self, e):
+        """An effect is a name (plain callback) or ('effopt', name, key): a callback whose own
+        parameter is read from the options, i.e. an Evaluatable returning the callback."""
+        if isinstance(e, str):
+            return self.effect_fn(e)
+        import labrea.functions as F
+        from labrea import Option
+
+        _, name, key = e
+        fn = self.effect_fn(name)
+
+        def with_param(value, param=None):
+            return fn(value)
+
+        return F.partial(with_param, param=Option(key))
+
     def body_fn(self, name, n):
         world = self
         tag = tag_fn(name)
@@ -430,7 +446,7 @@ class World:
         if p["callback"] is not None:
             kw["callback"] = self._func(p["callback"])
         if p["effects"]:
-            kw["effects"] = [self.effect_fn(e) for e in p["effects"]]
+            kw["effects"] = [self._effect(e) for e in p["effects"]]
         if p["dispatch"] is not None:
             kw["dispatch"] = self._dispatch(p["dispatch"])
         if p["options"] is not None:
